@@ -272,13 +272,15 @@ func addDependsOnEdges(g *Graph, objs object.UnstructuredSet, ids object.ObjMeta
 // before applying the custom resources created with the definition.
 // The objs and ids must match in order and length (optimization).
 func addCRDEdges(g *Graph, objs object.UnstructuredSet, ids object.ObjMetadataSet) {
-	crds := map[string]object.ObjMetadata{}
+	// A group/kind may (wrongly) be defined by more than one CRD object: keep
+	// all of them, so that the edges do not depend on the input order.
+	crds := map[string]object.ObjMetadataSet{}
 	// First create a map of all the CRD's.
 	for i, u := range objs {
 		if object.IsCRD(u) {
 			groupKind, found := object.GetCRDGroupKind(u)
 			if found {
-				crds[groupKind.String()] = ids[i]
+				crds[groupKind.String()] = append(crds[groupKind.String()], ids[i])
 			}
 		}
 	}
@@ -287,7 +289,7 @@ func addCRDEdges(g *Graph, objs object.UnstructuredSet, ids object.ObjMetadataSe
 	for i, u := range objs {
 		gvk := u.GroupVersionKind()
 		groupKind := gvk.GroupKind()
-		if to, found := crds[groupKind.String()]; found {
+		for _, to := range crds[groupKind.String()] {
 			from := ids[i]
 			klog.V(3).Infof("adding edge from: custom resource %s, to CRD: %s", from, to)
 			g.AddEdge(from, to)
@@ -300,12 +302,14 @@ func addCRDEdges(g *Graph, objs object.UnstructuredSet, ids object.ObjMetadataSe
 // before the resources in those namespaces are applied.
 // The objs and ids must match in order and length (optimization).
 func addNamespaceEdges(g *Graph, objs object.UnstructuredSet, ids object.ObjMetadataSet) {
-	namespaces := map[string]object.ObjMetadata{}
+	// More than one Namespace-kind object may carry the same name: keep all of
+	// them, so that the edges do not depend on the input order.
+	namespaces := map[string]object.ObjMetadataSet{}
 	// First create a map of all the namespaces objects live in.
 	for i, obj := range objs {
 		if object.IsKindNamespace(obj) {
 			namespace := obj.GetName()
-			namespaces[namespace] = ids[i]
+			namespaces[namespace] = append(namespaces[namespace], ids[i])
 		}
 	}
 	// Next, if the namespace of a namespaced object is being applied,
@@ -313,7 +317,7 @@ func addNamespaceEdges(g *Graph, objs object.UnstructuredSet, ids object.ObjMeta
 	for i, obj := range objs {
 		if object.IsNamespaced(obj) {
 			objNamespace := obj.GetNamespace()
-			if to, found := namespaces[objNamespace]; found {
+			for _, to := range namespaces[objNamespace] {
 				from := ids[i]
 				klog.V(3).Infof("adding edge from: %s to namespace: %s", from, to)
 				g.AddEdge(from, to)
